@@ -160,6 +160,74 @@ theorem C15_range_order (ρ : Look) (b e : Field) (bs es : String) (bi ei : Int)
     evalRange ρ (.fromTo b e) = some ((List.range (ei - bi + 1).toNat).map fun k => toString (bi + Int.ofNat k)) := by
   simp [evalRange, hb, he, hbi, hei, intRange]
 
+/-! ### nested iterators: every generated child evaluates the inner range for itself -/
+
+/-- The iteration variable reaches the generated role's children: in the stack the role hands
+    down — the one a nested iterator's `begin` / `end` / `range` is evaluated against — the
+    variable reads the element THIS role was generated for (unless a user variable of the same
+    name overrides it, as `FlattenStack(defaults, vars, uservars)` has it); the same holds for
+    whatever the role's own `defaults` / `vars` derived from it, since they are evaluated with
+    the local in scope (`procHdr`, stages 1–2). -/
+theorem C15_iteration_var_reaches_children (ctx : Ctx) (var v : String) (h : Hdr) (x : List Field)
+    (i : Info) (c' : Ctx) (ex : List String)
+    (hh : procHdr ctx [(var, v)] h x = .ok i c' ex) (hu : lookup (h.uvars ++ ctx.U) var = none) :
+    c'.lookRange var = some v ∧ lookup i.ownV var = some v := by
+  refine ⟨procHdr_binds hh var v (lookup_loc var v []) hu, ?_⟩
+  obtain ⟨_, v', hv⟩ := procHdr_ok hh
+  simp [hv, lookup_loc]
+
+/-- Depth 2, spelled out: the role generated by an outer iterator for element `v` (an
+    aggregator `h` whose first child is an inner iterator) gets, in range order, one instance of
+    the inner template per element of the inner range AS EVALUATED IN ITS OWN STACK `c'` — the
+    stack produced by its own header under `var := v` — followed by its other children. Nothing
+    of a sibling generated for another element enters: the statement mentions `v` only. -/
+theorem C15_nested_iterator_own_range (ctx : Ctx) (var v : String) (h : Hdr) (rng2 : RangeT) (var2 : String)
+    (body2 knext : Tmpl) (i : Info) (c' : Ctx) (ex : List String) (ws : List String)
+    (hh : procHdr ctx [(var, v)] h [] = .ok i c' ex)
+    (hr : evalRange c'.lookRange rng2 = some ws) (hen : rawEnabled body2 = true) :
+    (proc ctx [(var, v)] (.agg h (.iter rng2 var2 body2 knext) .nil)).f =
+      .agg i (.iter (ws.foldr (fun w acc => (proc c' [(var2, w)] body2).f ++ acc) .nil) .nil ++ (proc c' [] knext).f) .nil := by
+  simp [proc, hh, hr, hen, iterOut, fold_f, aggOut]
+
+/-- …and when the inner range does not evaluate in that child's stack (e.g. a bound that is not
+    an integer for THIS element), the load fails. -/
+theorem C15_nested_iterator_range_error (ctx : Ctx) (var v : String) (h : Hdr) (rng2 : RangeT) (var2 : String)
+    (body2 knext next : Tmpl) (i : Info) (c' : Ctx) (ex : List String)
+    (hh : procHdr ctx [(var, v)] h [] = .ok i c' ex) (hr : evalRange c'.lookRange rng2 = none) :
+    (proc ctx [(var, v)] (.agg h (.iter rng2 var2 body2 knext) next)).err = true := by
+  simp [proc, hh, hr]
+
+/-- Sibling copies of an iterator's template do not influence each other (no state is shared
+    between the copies): the outcome over a concatenated range is the concatenation of the
+    outcomes, so what is generated for one element — nested iterators at any depth included,
+    `body` is arbitrary — is a function of that element and the parent's stack alone. -/
+theorem C15_iterator_children_independent (ctx : Ctx) (var : String) (body : Tmpl) (vs₁ vs₂ : List String) :
+    (vs₁ ++ vs₂).foldr (fun v acc => (proc ctx [(var, v)] body).seq acc) Out.empty =
+      (vs₁.foldr (fun v acc => (proc ctx [(var, v)] body).seq acc) Out.empty).seq
+        (vs₂.foldr (fun v acc => (proc ctx [(var, v)] body).seq acc) Out.empty) :=
+  fold_append ctx var body vs₁ vs₂
+
+/-- EVERY nesting depth: in a nest of n iterators (`nest`, n = `ls.length + 1`, each over an
+    aggregator with a plain truthy `enabled`) the task / call roles are, in order, those of the
+    innermost template instantiated once per stack of `nestCtxs` — i.e. one instance per tuple
+    (w₁, …, wₙ) with wₖ ranging, in range order, over level k's range evaluated in the stack of
+    the role generated for (w₁, …, wₖ₋₁). -/
+theorem C15_nested_every_depth (ctx : Ctx) (loc : Env) (l : Level) (ls : List Level) (inner : Tmpl)
+    (hen : nestEnabled (l :: ls) = true) :
+    (proc ctx loc (nest (l :: ls) inner)).f.leaves =
+      (nestCtxs ctx (l :: ls)).flatMap fun c => (proc c [] inner).f.leaves := by
+  rw [← nest_leaves inner (l :: ls) ctx hen]
+  simp only [nest]
+  rw [proc_iter_loc]
+
+/-- …under every schedule and every setting of the three switches (nests are templates). -/
+theorem C15_nested_schedule_indep (sw : Switches) (sched : List Step) (root : Hdr) (ls : List Level) (inner : Tmpl) :
+    loadWith sw sched (.agg root (nest ls inner) .nil) = load (.agg root (nest ls inner) .nil) := by
+  unfold loadWith
+  split
+  · exact loadSeq_eq _
+  · exact C15_schedule_indep sched _
+
 /-- FULL-STRENGTH statement (FALSE of the code, see `C15_finding_iterator_enabled_expr`):
     the code's loader yields what the ideal loader yields whenever no `enabled` fails to
     evaluate and no hollow aggregator is kept — i.e. iterators contribute one child per
@@ -274,6 +342,17 @@ def masked : Tmpl :=
     (.task (hdr "a" (lit "true")) taskX true
       (.task (hdr "b" [.bool (.eq (.var "typo") (.lit "true"))]) taskX true .nil)) .nil
 
+/-- root → for i in 1..3: aggregator `o-{{ i }}` with `vars: {n: "{{ i }}"}` → for j in 1..{{ n }}:
+    aggregator `p-{{ j }}` → task `t-{{ i }}-{{ j }}`  (the inner range differs per outer child) -/
+def nestLevels : List Level := [
+  ⟨.fromTo (lit "1") (lit "3"), "i", { hdr "o" (lit "true") [("n", [.str (.var "i")])] with name := [.text "o-", .str (.var "i")] }⟩,
+  ⟨.fromTo (lit "1") [.str (.var "n")], "j", { hdr "p" (lit "true") with name := [.text "p-", .str (.var "j")] }⟩]
+
+def nested : Tmpl :=
+  .agg (hdr "wf" (lit "true"))
+    (nest nestLevels
+      (.task { hdr "t" (lit "true") with name := [.text "t-", .str (.var "i"), .text "-", .str (.var "j")] } taskX true .nil)) .nil
+
 end Load.Witness
 
 /-- Finding `iterator_enabled_expr`: an iterator whose template carries
@@ -312,3 +391,16 @@ example :
           (.call (Load.Witness.hdr "cfg" [.bool (.ne (.var "run") (.lit "0"))]) [Load.Witness.lit "f()", [], Load.Witness.lit "0s", [], []] true .nil)) .nil
     (proc {} [] t).ev.none = true ∧ (proc {} [] t).err = false ∧
       (match load t with | .tree (.agg _ k _) => k.len | _ => 0) = 3 := by decide
+
+/-- Non-vacuity for the nested-iterator theorems: a depth-2 nest whose inner range is
+    `1..{{ n }}` with `n` set by each generated child from the outer iteration variable loads
+    without any of the three recorded behaviours; outer child i gets exactly i grandchildren, in
+    order; `nestCtxs` has the 1 + 2 + 3 = 6 stacks, the last of which binds i = 3, j = 3. -/
+example :
+    nestEnabled Load.Witness.nestLevels = true ∧
+    (proc {} [] Load.Witness.nested).ev.none = true ∧ (proc {} [] Load.Witness.nested).err = false ∧
+    (match load Load.Witness.nested with | .tree tr => tr.leaves.map (·.name) | _ => []) =
+      ["t-1-1", "t-2-1", "t-2-2", "t-3-1", "t-3-2", "t-3-3"] ∧
+    (nestCtxs {} Load.Witness.nestLevels).map (fun c => (c.lookRange "i", c.lookRange "j")) =
+      [(some "1", some "1"), (some "2", some "1"), (some "2", some "2"),
+       (some "3", some "1"), (some "3", some "2"), (some "3", some "3")] := by decide
